@@ -537,7 +537,7 @@ theorem handler_source_as_modelled :
        "if err := h.updateUpstreamServers(conf); err != nil { return fmt.Errorf(\"failed to update upstream servers: %w\", err) }",
        "return nil"] ∧
     Generated.Resolver.endpointsOnlyArm.getLast? =
-      some "if h.cfg.plus { err = h.updateUpstreamServers(cfg) } else { err = h.updateNginxConf(ctx, cfg) }" ∧
+      some "if h.cfg.plus && h.latestReloadResult.Error == nil { err = h.updateUpstreamServers(cfg) } else { err = h.updateNginxConf(ctx, cfg) }" ∧
     Generated.Resolver.endpointsOnlyArm.take 2 =
       ["h.version++", "cfg := dataplane.BuildConfiguration(ctx, gr, h.cfg.serviceResolver, h.version)"] := by
   exact ⟨rfl, rfl, rfl, rfl, rfl, rfl, rfl⟩
